@@ -38,7 +38,7 @@ func genFixtureRef(t *rapid.T, kinds []string) (int, string) {
 			}
 		}
 	}
-	r := rapid.IntRange(0, total-1).Draw(t, "kindw")
+	r := uni(t, "kindw") % total
 	kind := ""
 	for _, kw := range kindWeights {
 		ok := false
@@ -60,7 +60,7 @@ func genFixtureRef(t *rapid.T, kinds []string) (int, string) {
 		return -1, ""
 	}
 	ids := fixturesOfKind(kind)
-	i := ids[rapid.IntRange(0, len(ids)-1).Draw(t, "fixture")]
+	i := ids[uni(t, "fixture")%len(ids)]
 	return i, Fixtures()[i].Name
 }
 
@@ -76,9 +76,7 @@ func genTotal(t *rapid.T) TotalCase {
 		}
 		c.Src = 0
 	}
-	if rapid.IntRange(0, 9).Draw(t, "mutate") > 0 {
-		c.Muts = genMutsOps(t, 1, 4, true)
-	}
+	c.Muts = genMutsOps(t, 0, 4, true)
 	c.PEM = rapid.IntRange(0, 15).Draw(t, "pem") == 0
 	return c
 }
@@ -100,6 +98,11 @@ func isNilObj(o any) bool {
 func contract(v *harness.Verdict, ep string, obj any, err error) string {
 	objNil := isNilObj(obj)
 	fatal := x509.IsFatal(err)
+	if objNil && obj != nil && (ep == "ParsePKIXPublicKey" || ep == "ParsePKCS8PrivateKey") {
+		// these two return an interface: a typed nil pointer inside it compares != nil at the call site
+		v.Failf("incoherent:"+ep+":typed-nil", "%s returned a non-nil interface holding a nil %T (err %v)", ep, obj, err)
+		return "mixed"
+	}
 	switch {
 	case !objNil && fatal:
 		v.Failf("incoherent:"+ep+":object-with-fatal-error", "%s returned an object together with a fatal error: %v", ep, err)
@@ -154,6 +157,11 @@ func runAll(v *harness.Verdict, in []byte, pemIn []byte) map[string]string {
 		b := cp()
 		c, err := x509.ParseCertificate(b)
 		res["ParseCertificate"] = contract(v, "ParseCertificate", c, err)
+		if err != nil && c == nil {
+			if m := normErr(err); strings.HasPrefix(m, "x###:") {
+				v.Class("branch:" + m)
+			}
+		}
 		if c != nil {
 			checkRaw(v, "ParseCertificate", b, 0, c, false)
 		}
@@ -250,7 +258,7 @@ func checkTotal(t *testing.T, c TotalCase) harness.Verdict {
 	}
 	var pemIn []byte
 	if c.PEM {
-		pemIn = pem.EncodeToMemory(&pem.Block{Type: "X509 CRL", Bytes: in})
+		pemIn = pemCRL(in)
 		v.Class("pem-wrapped")
 	}
 	res := runAll(&v, in, pemIn)
@@ -283,4 +291,29 @@ func checkTotal(t *testing.T, c TotalCase) harness.Verdict {
 // Total is sub-property (a).
 var Total = harness.Define(harness.Opts{Name: "total",
 	Rule:  "repository fixtures + generated certificates / CRLs / keys / CSRs (and some raw byte strings) under 0-4 structure-preserving derx mutations, fed to all twelve entry points; non-trivial = mutated input for which at least one entry point still returns an object",
-	Quick: 3000, Thorough: 30000}, genTotal, checkTotal)
+	Quick: 30000, Thorough: 100000}, genTotal, checkTotal)
+
+func pemCRL(der []byte) []byte { return pem.EncodeToMemory(&pem.Block{Type: "X509 CRL", Bytes: der}) }
+
+// normErr shortens an error text to a class label (which fatal branches the generator reaches).
+func normErr(err error) string {
+	m := err.Error()
+	for _, cut := range []string{" (got", " \"", ": x509:", " of length", " curve ", " mask ", " value "} {
+		if i := strings.Index(m, cut); i > 0 {
+			m = m[:i]
+		}
+	}
+	b := []byte(m)
+	for i, c := range b {
+		if c >= '0' && c <= '9' {
+			b[i] = '#'
+		}
+		if c < 0x20 || c > 0x7e {
+			b[i] = '?'
+		}
+	}
+	if len(b) > 56 {
+		b = b[:56]
+	}
+	return string(b)
+}
